@@ -46,6 +46,18 @@ CLAIMED = {
           "Machine-checked proof of well-formedness/completeness for all inputs; model tied exactly (plans equal incl. annealing trajectory); Synthesizer-level check that a main column given by name or index (0 included) is honoured.",
           "CPython set iteration order replica validated, not proved (theorems hold for every order). Determinism = the model is a function; checked on the implementation by re-running.",
           "DESIGN.md §5 C13"),
+  "C05": ("Lean 4 theorems (bucket seed depends on the sets of column names and range labels only, entity seed on the set of ids only, noise on (salt, bucket seed, entity seed) only; the model is a pure function of its recorded inputs) + bit-exact correspondence of trees and node counts + equal digests of sample() for six strategies across fresh interpreters with different PYTHONHASHSEED and perturbed global RNG state + identical tree dumps / bucket lists for table vs superset vs moved columns + a syntactic allow-list of randomness / clock call sites re-read from /repo on every run",
+          "Determinism of the implementation is established as 'equals the pure model' (bit-exact correspondence) plus cross-process digests; consistency across supersets and positions is evaluated on real forests (full dumps). The congruence 'tree of a column set is a function of those columns' is not a Lean theorem (partial).",
+          "CPython random.Random determinism trusted. Partial: T05.b not stated in Lean.",
+          "DESIGN.md §5 C05"),
+  "C15": ("Lean 4 theorems (invalid requests rejected before anything else; a catalog hit is exactly the stored combination; otherwise the plan delivers every requested column once (C13) and stitches return column unions (C12)) + correspondence of the read decision (invalid / stored / stitched) + every read of generated blobs checked end to end (columns, order, kinds, stored combination as stored, fresh reader repeatable, caller's list untouched, ValueError on invalid)",
+          "Proof of the decision logic and of the plan/column algebra; the data path (syndiffix.stitch over stored tables) is exercised end to end on real blobs (3-5 mixed columns, with/without ids, max_cluster_size 2-3 so that requests are stitched, column names with shared prefixes).",
+          "Data path of stitched reads not modelled (partial). parquet dtype round-trip trusted.",
+          "DESIGN.md §5 C15"),
+  "C16": ("Lean 4 theorems by induction over arbitrary histories (builds of two datasets with fresh or reused builder objects, reader constructions, damage, deletion): the archive is exactly the last build's members, a reader serves the archive's members only and rejects a missing / corrupt archive + real histories replayed on a temp dir against the Lean machine (members tagged by dataset through content hashes; truncation at random lengths, flipped member bytes) + content checks of real archives (member names, stored tables read back, salt byte scan, writers checked syntactically)",
+          "Machine-checked invariant over all histories of the directory/archive machine; machine tied to blob.py by replaying generated and directed histories; content clause checked on real archives.",
+          "zip/parquet formats outside the model; zipfile's corruption detection trusted and exercised.",
+          "DESIGN.md §5 C16"),
   "C06": ("Lean 4 theorems by induction over arbitrary schedules (any number of processes, any interleaving, crashes and I/O failures at any call): the published salt is absent or one complete 8-byte value, never changes once published, every returning run returns exactly it, never a short value; explicit salt verbatim + the real routine replayed under an interposed scheduler on a real temp dir against the Lean machine (every call a scheduling point; a switch / crash / failure at every point) + byte scans and a syntactic check of the blob writers",
           "Machine-checked invariant over all schedules of the process/file machine; the machine is tied to the real function by replaying generated schedules (threads, module-global interposition, real file system) and comparing per-process outcome and final file; the property is also evaluated directly on the real outcomes.",
           "File-system semantics (atomic no-overwrite link, private mkstemp names, loss of unflushed data) trusted. Secrecy clause: syntactic + byte scan only (partial).",
